@@ -163,6 +163,38 @@ def run(ctx):
                         pass
                     except AttributeError:
                         pass
+        # ---- every range can be hashed, whatever its shape (the star range too) and whatever collection it was built
+        # from; it keeps nothing of the caller's list
+        if values:
+            shapes = [("*", [vc.VersionConstraint(comparator="*", version_class=cls)]),
+                      ("one", [vc.VersionConstraint(comparator=">=", version=values[0])])]
+            try:
+                if len(values) >= 2 and (values[0] < values[-1] or values[-1] < values[0]):
+                    shapes.append(("two", [vc.VersionConstraint(comparator="!=", version=values[0]), vc.VersionConstraint(comparator="!=", version=values[-1])]))
+            except Exception:  # noqa
+                pass
+            for label, cons in shapes:
+                evals += 1
+                lst = list(cons)
+                try:
+                    a, b = rcls(constraints=lst), rcls(constraints=tuple(cons))
+                    built = [a, b]
+                    if label == "*" and vr.RANGE_CLASS_BY_SCHEMES.get(rcls.scheme) is rcls:
+                        built.append(vr.VersionRange.from_string(f"vers:{rcls.scheme}/*"))
+                    ok = all(x == a and hash(x) == hash(a) for x in built) and len(set(built)) == 1
+                    shown = (str(a), repr(a), hash(a))
+                    lst.append(lst[0])
+                    lst.reverse()
+                    del lst[0]
+                    ok2 = (str(a), repr(a), hash(a)) == shown and a == b
+                except Exception as e:  # noqa
+                    viol(f"{rcls.__name__}: the range of shape {label!r} built from a list cannot be hashed or compared: {e!r}", inputs=dict(range_class=rcls.__name__, shape=label, constraints=[str(c) for c in cons]))
+                    continue
+                if not ok:
+                    viol(f"{rcls.__name__}: the same range of shape {label!r} built from a list, a tuple or its text gives objects that are not equal with equal hashes",
+                         inputs=dict(range_class=rcls.__name__, shape=label, constraints=[str(c) for c in cons]))
+                elif not ok2:
+                    viol(f"{rcls.__name__}: changing the list a range of shape {label!r} was built from changes the range", inputs=dict(range_class=rcls.__name__, shape=label, constraints=[str(c) for c in cons]))
         # ---- no public operation changes the observable state of its arguments
         for _ in range(15 if ctx.tier == "quick" else 300):
             if len(values) < 6:
